@@ -155,6 +155,11 @@ def report(prop, tier, seed, outcomes, errors, ctx, t0, extra=None, assumptions=
             continue
         seenk.add(key)
         lines.append(f"KNOWN-FINDING: property={prop} {o.rule} {i.construct}: {i.fact}")
+    # a listed finding that is not observed: repaired in the tree -- or no longer seen by the analysis; said, never fatal
+    listed = [k for k in load_known() if k["property"] == prop and k.get("status") == "known"]
+    absent = [k for k in listed if (k["rule"], k["construct"], k["fact"]) not in seenk]
+    for k in absent:
+        lines.append(f"NOTE property={prop} listed known finding not observed on this tree: {k['rule']} {k['construct']}: {k['fact']}")
     for o, i in viol:
         lines.append(f"  {o.rule} {i.where} {i.construct}: {i.fact}" + (f" -- {i.detail}" if i.detail else "")
                      + (f" [path: {' -> '.join(i.path)}]" if i.path else ""))
@@ -198,6 +203,7 @@ def report(prop, tier, seed, outcomes, errors, ctx, t0, extra=None, assumptions=
         "analysed": dict(ctx.model.census(), **ctx.graph.census()) if ctx else {},
         "source_root": ctx.model.src if ctx else None,
         "known_findings_reported": len(seenk),
+        "known_findings_listed_but_not_observed": [f"{k['rule']} {k['construct']}: {k['fact']}" for k in absent],
         "analysis_errors": errors + [f"undecided: {o.rule} {i.construct}: {i.fact}" for o, i in und],
     }
     if extra:
